@@ -222,6 +222,18 @@ func dhcpScenario(c nicCfg, sseed uint64) (cases []dhcpCase, bad []string) {
 	h, file := dhcpHandler(s, c)
 	defer func() { h.Close(); os.Remove(file) }()
 	seed := strconv.Itoa(rng.Intn(256))
+	// State carried through the shared pool: two scenarios out of three start with refused sends of every kind
+	// (one refusal theorem each) on this session, and the pool is not emptied between the steps (keepPool): the
+	// forced DECLINE / RELEASE hold two pooled buffers at once, the replies one.  A buffer that a refused send left
+	// in the pool twice would be both of them.
+	keepPool = false
+	poisonPool(atoi(seed))
+	if sseed%3 != 0 {
+		keepPool = true
+		defer func() { keepPool = false }()
+		refusedPrelude(s, h, lib.NewRand(sseed^0x706f6f6c))
+		cn.Take()
+	}
 	// expect patches the arguments read from the frame with what the scenario KNOWS was requested at this
 	// step (addresses, ids, xid), so that the spec column judges the frame against independent values
 	var expect func(label string, kind string, nth int, args []string) []string
@@ -311,6 +323,35 @@ func dhcpScenario(c nicCfg, sseed uint64) (cases []dhcpCase, bad []string) {
 		harvest("starthunt")
 	}
 	return
+}
+
+// refusedPrelude: calls that the library refuses (an error, nothing written), 1..3 times each, in a random order.
+func refusedPrelude(s *packet.Session, h *dhcp4_spoofer.Handler, rng *lib.Rand) {
+	g := gen{rng}
+	m := func() net.HardwareAddr { return net.HardwareAddr{2, rng.Byte(), rng.Byte(), rng.Byte(), rng.Byte(), rng.Byte()} }
+	v4 := func() packet.Addr { return packet.Addr{MAC: m(), IP: g.ip4()} }
+	v6 := func() packet.Addr { return packet.Addr{MAC: m(), IP: g.ip6()} }
+	var pf []packet.PrefixInformation
+	for i := 0; i < 50; i++ {
+		pf = append(pf, packet.PrefixInformation{PrefixLength: 64, OnLink: true, Prefix: net.IP{0x20, 1, byte(i), rng.Byte(), 0, 0, 0, 0, 0, 0, 0, 0, 0, 0, 0, 0}})
+	}
+	calls := []func(){
+		func() { s.ICMP6SendRouterAdvertisement(pf, nil, v6()) },             // does not fit the buffer
+		func() { s.ICMP6SendEchoRequest(v4(), v4(), 1, 1) },                  // wrong family
+		func() { s.ICMP4SendEchoRequest(v6(), v6(), 1, 1) },                  // wrong family
+		func() { s.ICMP6SendNeighborAdvertisement(v6(), v6(), packet.Addr{MAC: net.HardwareAddr{1, 2, 3}, IP: g.ip6()}) }, // target MAC
+		func() { h.SendDiscoverPacket(nil, netip.Addr{}, nil, "x") },         // chaddr
+		func() { h.SendDiscoverPacket(net.HardwareAddr{1, 2, 3, 4, 5, 6, 7}, netip.Addr{}, nil, "x") },
+	}
+	for n := 4 + rng.Intn(8); n > 0; n-- {
+		f := calls[rng.Intn(len(calls))]
+		for k := 1 + rng.Intn(3); k > 0; k-- {
+			func() {
+				defer func() { recover() }()
+				f()
+			}()
+		}
+	}
 }
 
 // scnToken names a frame of a scenario: scn:<sseed>:<k> = the k-th frame of the case's kind.
@@ -617,6 +658,9 @@ func doLate(r *lib.Run, kind string, c nicCfg, pre []string, derive func(f []byt
 		}
 		r.Case(kind, append(c.toks(), args...), obs) // refused (or worse): the arguments as given
 		oracle(r, kind, c, args, obs)
+		if obs == "none" {
+			noteCase(kind, append(c.toks(), args...), obs)
+		}
 		r.Stat("class."+kind+".refused", 1)
 		return
 	}
